@@ -40,6 +40,23 @@ type spec struct {
 	Workers  int // 0 = 16
 	Custom   func(s *spec, tier string, seed uint64, scratch string) int
 	RuleText string
+	// manifest texts
+	Technique, LevelText, LevelNote, DesignRef, EngineText string
+}
+
+func runOut(name string, args ...string) (string, error) {
+	out, err := exec.Command(name, args...).Output()
+	return string(out), err
+}
+
+func splitLines(s string) []string {
+	var out []string
+	for _, l := range strings.Split(s, "\n") {
+		if strings.TrimSpace(l) != "" {
+			out = append(out, strings.TrimSpace(l))
+		}
+	}
+	return out
 }
 
 func goEnv(extra ...string) []string {
@@ -498,6 +515,10 @@ func main() {
 		for _, s := range specs {
 			fmt.Printf("%s engine=%s pkg=%s level=%s quick=%ds thorough=%ds\n", s.Prop, s.Engine, s.Pkg, s.Level, s.QuickS, s.ThoroS)
 		}
+		return
+	}
+	if len(os.Args) >= 2 && os.Args[1] == "--manifest" {
+		writeManifest()
 		return
 	}
 	if len(os.Args) >= 2 && os.Args[1] == "--warm" {
